@@ -107,8 +107,11 @@ glamfit_complex(const struct ndsparse* data, const double* weights, const double
 		R.ranges[i] = F.ranges[i] = data->ranges[i];
 	}
 
+	/* An entry of weight zero contributes nothing, whatever its value
+	 * (0*NaN and 0*inf would make R, and every coefficient, NaN) */
 	for (i = 0; i < data->rows; i++)
-		R.x[i] *= data->x[i];
+		if (R.x[i] != 0)
+			R.x[i] *= data->x[i];
 
 	/*
 	 * Convolve F and R with the basis matrices
